@@ -351,9 +351,19 @@ def run(ctx):
     for k in range(ctx.share(ctx.pick(2000, 100000))):
         check_case(recipe.gen_doc(rng, max_changes=4, max_files=3,
                                   enc_p=0.45), obs, 'general')
+    # several readers alive at once: the encoding scopes of one document
+    # must not reach another
+
+    def gen_data(r):
+        return serialize(recipe.gen_doc(r, max_changes=3, max_files=3,
+                                        enc_p=0.5))[0]
+    common.reader_concurrency_pass(ctx, gen_data,
+                                   ctx.share(ctx.pick(120, 3000)))
 
 
 def replay(case, obs):
+    if 'concurrent' in case or 'interleaved' in case:
+        return common.replay_reader_concurrency(case, obs)
     check_case(case, obs, 'replay')
 
 
